@@ -82,11 +82,14 @@ def make_tree(root, config):
         for name in files:
             acc = [a for a in ACCESSORS if name in NAMES[a]][0]
             text = t[acc].replace(TAG, "%s-%s" % (loc, name.replace(".", "_")))
+            if config.get("empty_label"):
+                text = text.replace('"compose": {', '"compose": {"label": "",', 1)       # present but empty = no label
             if config.get("broken") and config["broken"][:2] == [loc, name]:
                 how = config["broken"][2]
                 text = {"garbage": "this is {not json", "empty": "", "truncated": text[:len(text) // 2],
                         "foreign-type": text.replace('"productmd.%s"' % {"info": "composeinfo"}.get(acc, acc), '"productmd.discinfo"'),
                         "bad-version": text.replace('"version": "1.2"', '"version": "1.x"'),
+                        "other-kind-1.1": t["rpms" if acc != "rpms" else "images"].replace('"version": "1.2"', '"version": "1.1"'),
                         "bad-date": text.replace('"date": "20160102"', '"date": "2016"')}[how]
             with open(os.path.join(d, name), "w") as f:
                 f.write(text)
@@ -260,6 +263,7 @@ def units(tier, seed):
             us.append(("single", loc, pats[i:i + 16]))
     for combo in (("direct", "compose"), ("direct", "sub"), ("compose", "sub"), ("direct", "compose", "sub")):
         us.append(("multi", list(combo)))
+    us.append(("label",))
     for loc in LOCS:
         us.append(("broken", loc))
     for loc in LOCS:
@@ -321,7 +325,7 @@ def run_unit(unit, acc):
         loc = unit[1]
         for files in (REDUCED_PATTERNS[0], REDUCED_PATTERNS[3], ["composeinfo.json", "images.json", "image-manifest.json", "rpms.json", "rpm-manifest.json"]):
             for name in files:
-                for how in ("garbage", "empty", "truncated", "foreign-type", "bad-version", "bad-date"):
+                for how in ("garbage", "empty", "truncated", "foreign-type", "bad-version", "bad-date", "other-kind-1.1"):
                     config = {"locs": {loc: list(files)}, "broken": [loc, name, how], "siblings": []}
                     for seq in BOTH_ORDERS:
                         _check({"config": config, "sequence": seq}, acc, "broken")
@@ -339,6 +343,11 @@ def run_unit(unit, acc):
                 for perm in itertools.permutations(range(n)):
                     _check({"config": config, "sequence": ACCESSORS, "perm": list(perm)}, acc, "perm")
                     acc.outcome("listdir-permutation")
+    elif k == "label":
+        for loc in LOCS:
+            for files in (REDUCED_PATTERNS[0], REDUCED_PATTERNS[3]):
+                for seq in BOTH_ORDERS:
+                    _check({"config": {"locs": {loc: list(files)}, "siblings": [], "empty_label": True}, "sequence": seq}, acc, "empty-label")
     elif k == "retarget":
         trees = [{"locs": {"direct": REDUCED_PATTERNS[0]}}, {"locs": {"direct": REDUCED_PATTERNS[1]}}, {"locs": {"compose": REDUCED_PATTERNS[0]}},
                  {"locs": {"sub": REDUCED_PATTERNS[3]}}, {"locs": {"direct": REDUCED_PATTERNS[2]}}, {"locs": {"compose": REDUCED_PATTERNS[2]}},
